@@ -1,11 +1,12 @@
 #!/bin/sh
 # Builds the framework from files on disk only (offline).
 set -e
-cd /verif/harness
+ROOT="$(cd "$(dirname "$0")" && pwd)"
+cd "$ROOT/harness"
 [ -f Cargo.lock ] || cp /repo/Cargo.lock .
 CARGO_NET_OFFLINE=true cargo build --release --offline
-mkdir -p /verif/.build/tmp
-/verif/.build/harness-target/release/harness dump-tables > /verif/.build/tables.tmp
-cmp -s /verif/.build/tables.tmp /verif/lean/BoolFn/Generated/Tables.lean || cp /verif/.build/tables.tmp /verif/lean/BoolFn/Generated/Tables.lean
-cd /verif/lean
+mkdir -p "$ROOT/.build/tmp"
+"$ROOT/.build/harness-target/release/harness" dump-tables > "$ROOT/.build/tables.tmp"
+cmp -s "$ROOT/.build/tables.tmp" "$ROOT/lean/BoolFn/Generated/Tables.lean" || cp "$ROOT/.build/tables.tmp" "$ROOT/lean/BoolFn/Generated/Tables.lean"
+cd "$ROOT/lean"
 lake build BoolFn driver
